@@ -9,6 +9,7 @@ and item preparers) and the Lean Impl model `SpecVerif.C03.step` (Drivers/C03.le
 written reference type checker (plain recursion over `typing.get_origin/get_args`) applied to every
 managed attribute of every live instance.
 """
+import collections.abc
 import json
 import typing
 
@@ -24,6 +25,12 @@ REQUIRED_THEOREMS = [
     "SpecVerif.Props.C03.wellTyped_step",
     "SpecVerif.Props.C03.wellTyped_reachable",
     "SpecVerif.Props.C03.bad_value_rejected",
+    "SpecVerif.Props.C03.wellTyped_attr",
+    "SpecVerif.Props.C03.items_checked_by_prepare",
+    "SpecVerif.Props.C03.stored_value_conforms_deep",
+    "SpecVerif.Props.C03.bad_default_rejected",
+    "SpecVerif.Props.C03.bad_default_error_stores_nothing",
+    "SpecVerif.Props.C03.reset_error_stores_nothing",
 ]
 RULE = (
     "case = class family (hand-written families incl. one with list/dict/set attributes carrying item preparers, "
@@ -35,8 +42,13 @@ RULE = (
     "set element, dict key, dict value, nested attribute through keywords, through a dict cast and through the "
     "constructor, result of a transform, result of a preparer / item preparer); calls tagged `bad` must raise "
     "TypeError or ValueError and store nothing. After every call the reference checker visits every managed "
-    "attribute of every live instance. Non-trivial = a call that changed state or raised; distinct = distinct "
-    "(family, pre-state, call)."
+    "attribute of every live instance. Families also carry: attributes annotated with the abstract collection generics "
+    "MutableSequence / MutableSet / MutableMapping (check_type looks at the container class only: pre-built containers "
+    "with ONE wrong item / key / value at each position through every route), attributes backed by an overridable "
+    "spec_property (overrides must conform like any value), and defaults that do NOT conform (declared value, "
+    "default_factory, Attr(...), dataclasses.field, preparer output, plain- and spec-subclass overrides, wrong element "
+    "of a default collection): constructed with explicit values, then del / reset_<a> / reset() must raise and store "
+    "nothing. Non-trivial = a call that changed state or raised; distinct = distinct (family, pre-state, call)."
 )
 ASSUMPTIONS = [
     "instances handed in as arguments or returned by callbacks were themselves created through the API (are well typed)",
@@ -44,6 +56,8 @@ ASSUMPTIONS = [
     "bools are kept out of hashed positions (True == 1) and sets aimed at list attributes have at most one element",
     "direct mutation of a contained list/dict by the user is out of scope (property text)",
     "KeyedList/KeyedSet attributes, tuple generics, validated types: C13/C14/C15; frozen classes: C07",
+    "a dependant (`invalidated_by`) whose default passes check_type conforms deeply (EnvOK.depDefaultDeep: the model "
+    "resets dependants after check_type alone)",
 ]
 EXHAUSTIVE = {"quick": False, "thorough": False}
 
@@ -92,6 +106,200 @@ FAMILY_ELEM = {
     ]
 }
 
+# container classes `check_type` does not look inside (the abstract collection generics): only the per-item pass of
+# `CollectionAttrMutator.prepare()` and the checking inserters guard the items
+VT0, VT3 = ["valid", 0, INT], ["valid", 3, INT]
+FAMILY_ABS = {
+    "classes": [
+        {"id": 1, "kind": "spec", "base": None, "key": None, "attrs": [
+            A(0, INT, "value", "i1"), A(1, ["mseq", INT]), A(2, ["mmap", STR, INT], "factory", "D 1 s100 i1")]},
+        {"id": 0, "kind": "spec", "base": None, "key": None, "attrs": [
+            A(0, ["mseq", INT]),
+            A(1, ["mmap", STR, INT]),
+            A(2, ["mset", STR]),
+            A(3, ["mseq", STR], "factory", "L 2 s100 s101"),
+            A(4, ["mmap", INT, STR], "attrfactory", "D 1 i1 s100"),
+            A(5, ["mset", INT], "fieldfactory", "S 2 i1 i2"),
+            A(6, ["mseq", ["union", INT, STR]]),
+            A(7, ["mseq", VT0]),
+            A(8, ["mmap", STR, VT3]),
+            A(9, ["list", INT], "value", "L 1 i1"),          # the concrete kinds next to them
+            A(10, ["dict", STR, INT]),
+            A(11, INT, "value", "i0"),
+            A(12, ["spec", 1]),
+            A(13, ["mseq", V.opt(INT)], "factory", "L 2 N i0"),
+            A(14, ["mset", ["lit", ["s100", "s101"]]]),
+        ]},
+        {"id": 2, "kind": "plain", "base": 0, "over": {"11": "i5"}},
+        {"id": 3, "kind": "spec", "base": 0, "key": None, "over": {"11": "i7"}, "attrs": [A(15, ["mseq", INT], "factory", "L 0")]},
+        {"id": 4, "kind": "plain", "base": 3, "over": {"9": "L 0"}},
+    ]
+}
+
+# managed attributes whose class-level value is a descriptor (an overridable `spec_property`): no default of their
+# own, reading without an override runs the getter; an override must conform like any other value
+FAMILY_DESC = {
+    "classes": [
+        {"id": 1, "kind": "spec", "base": None, "key": None, "attrs": [
+            A(0, INT, "value", "i1"), A(1, INT, "prop", "i3"), A(2, STR, "prop", "s100")]},
+        {"id": 0, "kind": "spec", "base": None, "key": None, "attrs": [
+            A(0, INT, "value", "i8"),
+            A(1, INT, "prop", "i1"),
+            A(2, ["lit", ["s100", "s101"]], "prop", "s100"),
+            A(3, V.opt(STR), "prop", "N"),
+            A(4, ["union", INT, STR], "prop", "s101"),
+            A(5, STR, "prop", "s999"),                        # falsy getter value
+            A(6, ["spec", 1], "prop", "I 1 1 0 i2"),
+            A(7, ["list", INT], "prop", "L 2 i1 i2"),
+            A(8, ["float"], "prop", "f3"),
+            A(9, VT0, "prop", "i0"),
+            A(10, STR, "value", "s100"),
+            A(11, ["dict", STR, INT], "prop", "D 1 s100 i1"),
+            A(12, ["bool"], "prop", "F"),
+            A(13, INT, "value", "i2", prep=4),               # a preparer reading a0
+        ]},
+        {"id": 2, "kind": "plain", "base": 0, "over": {"0": "i0", "10": "s101"}},
+        {"id": 3, "kind": "spec", "base": 0, "key": None, "over": {"10": "s102"}, "attrs": [A(14, INT, "prop", "i0")]},
+        {"id": 4, "kind": "plain", "base": 3, "over": {"0": "i3"}},
+    ]
+}
+
+# defaults that do NOT conform: nothing may ever establish them (constructor, del, reset_<a>, reset())
+FAMILY_BADDEF = {
+    "classes": [
+        {"id": 1, "kind": "spec", "base": None, "key": None, "attrs": [A(0, INT, "value", "i1"), A(1, STR, "value", "i5")]},
+        {"id": 0, "kind": "spec", "base": None, "key": None, "attrs": [
+            A(0, INT, "value", "N"),                          # declared None, not Optional
+            A(1, STR, "factory", "i3"),                       # default_factory of the wrong type
+            A(2, ["list", STR], "attrfactory", "L 2 s100 i0"),  # one wrong element (last)
+            A(3, V.opt(INT), "value", "N"),                   # fine
+            A(4, INT, "attr", "s100"),                        # Attr(default=...)
+            A(5, ["float"], "field", "s100"),                 # dataclasses.field(default=...)
+            A(6, ["dict", STR, INT], "fieldfactory", "D 2 s100 i1 i1 i1"),   # wrong key
+            A(7, ["lit", ["s100", "s101"]], "value", "s102"),  # not one of the choices
+            A(8, INT, "value", "i13", prep=6),                # the preparer turns the default into a str
+            A(9, INT, "value", "i2"),                         # fine here, overridden in subclasses
+            A(10, ["set", INT], "attrfactory", "S 2 i1 s100"),
+            A(11, V.opt(["spec", 1]), "value", "i5"),         # (Optional: raw instances of the pools always carry it)
+            A(12, VT0, "value", "i-4"),                       # fails the validator
+            A(13, ["mseq", INT], "factory", "L 2 i1 s100"),   # container class ok, wrong item
+            A(14, ["dict", STR, INT], "factory", "D 1 s100 s101"),           # wrong value
+            A(15, STR, "value", "s100"),                      # fine
+            A(16, ["union", INT, STR], "value", "f3"),
+            A(17, ["bool"], "value", "i0"),                   # falsy, but an int is no bool
+        ]},
+        {"id": 2, "kind": "plain", "base": 0, "over": {"9": "s100", "3": "s101"}},
+        {"id": 3, "kind": "spec", "base": 0, "key": None, "over": {"9": "N", "0": "i4"}, "attrs": [A(18, INT, "value", "f3")]},
+        {"id": 4, "kind": "plain", "base": 3, "over": {"18": "i1", "15": "i0"}},
+        {"id": 5, "kind": "plain", "base": 2, "over": {"9": "i1", "3": "N", "15": "N"}},     # plain subclass of a plain subclass
+    ]
+}
+
+ABSTRACT = {"mseq": "list", "mset": "set", "mmap": "dict"}
+
+
+def cty(ty):
+    """the concrete counterpart of an annotation (MutableSequence[t] -> List[t] &c.): what the property demands of
+    a value is the same for both"""
+    k = ty[0]
+    if k in ABSTRACT:
+        return [ABSTRACT[k]] + [cty(t) for t in ty[1:]]
+    if k in ("list", "set", "dict", "union"):
+        return [k] + [cty(t) for t in ty[1:]]
+    return ty
+
+
+def is_abstract(ty):
+    return ty[0] in ABSTRACT
+
+
+_VIEWS = {}
+
+
+def view(fam):
+    """the family as the value generators see it: abstract collection generics replaced by the concrete kinds
+    (the original annotation is kept under "aty")"""
+    hit = _VIEWS.get(id(fam))
+    if hit is not None and hit[0] is fam:
+        return hit[1]
+    import copy
+
+    out = copy.deepcopy(fam)
+    for cd in out["classes"]:
+        for ad in cd.get("attrs", []):
+            ad["aty"] = ad["ty"]
+            ad["ty"] = cty(ad["ty"])
+    if len(_VIEWS) > 400:
+        _VIEWS.clear()
+    _VIEWS[id(fam)] = (fam, out)
+    return out
+
+
+class _Probe:
+    """what a preparer sees when a default is vetted by the harness (only `a0` is ever read)"""
+    a0 = 1
+
+
+def bad_default_attrs(vfam, cid):
+    """names of the attributes of class `cid` whose default (as an instance of `cid` gets it) does not conform"""
+    out = []
+    for ad in V.effective_attrs(vfam, cid):
+        if ad.get("d") is None or ad.get("dk") == "prop":
+            continue
+        if ad["d"].startswith("I"):
+            continue
+        v = decode(ad["d"])
+        if ad.get("prep") is not None:
+            v = V.PREPARERS[ad["prep"]](_Probe(), v)
+        if v is None and ad["ty"][0] in ("list", "set", "dict") and not is_abstract(ad.get("aty", ad["ty"])):
+            continue        # None is normalised into the empty collection
+        if not C5.p_conforms(vfam, ad["ty"], C5.snap(v)):
+            out.append(ad["name"])
+    return out
+
+
+def random_family3(rng):
+    """a family from C05's grammar, widened: some list/set/dict attributes become abstract collection generics, some
+    preparer-less attributes become property-backed, and (one time in three) some defaults are made non-conforming"""
+    fam = C5.random_family(rng)
+    for cd in fam["classes"]:
+        keyattr = cd.get("key")
+        for ad in cd.get("attrs", []):
+            k = ad["ty"][0]
+            if k in ("list", "set", "dict") and rng.random() < 0.35:
+                ad["ty"] = [{"list": "mseq", "set": "mset", "dict": "mmap"}[k]] + ad["ty"][1:]
+                ad["ip"] = None        # (an item preparer on an abstract container can only ever raise)
+                if ad.get("d") == "N":
+                    ad["dk"], ad["d"] = "none", None
+            elif (k not in ("list", "set", "dict") and ad.get("prep") is None and ad["name"] != keyattr
+                  and ad.get("d") is not None and not ad["d"].startswith("I") and rng.random() < 0.3):
+                ad["dk"] = "prop"
+    # subclasses must not re-default a property-backed attribute (`del` then finds the class attribute again)
+    for cd in fam["classes"]:
+        if cd.get("over"):
+            props = {str(ad["name"]) for ad in V.effective_attrs(fam, cd["base"]) if ad.get("dk") == "prop"}
+            cd["over"] = {a: d for a, d in cd["over"].items() if a not in props}
+    if rng.random() < 0.34:
+        vf = view(fam)
+        top = [cd for cd in fam["classes"] if cd["id"] == 0][0]
+        cands = [ad for ad in top["attrs"] if ad.get("prep") is None and ad.get("ip") is None and ad.get("dk") != "prop"
+                 and C5.spec_member(cty(ad["ty"])) is None]
+        for ad in rng.sample(cands, min(len(cands), rng.randint(1, 2))):
+            t = cty(ad["ty"])
+            if t[0] in ("list", "set", "dict"):
+                b = bad_collection(rng, vf, t, rng.choice(["key", "value"]), abstract=is_abstract(ad["ty"]))
+                if b == "i1":
+                    continue
+                ad["dk"], ad["d"] = rng.choice(["factory", "attrfactory", "fieldfactory"]), b
+            else:
+                b = bad_for(rng, vf, t, scalar_only=True)
+                if b is None:
+                    continue
+                ad["dk"], ad["d"] = rng.choice(["value", "factory", "attr", "field"]), b
+        _VIEWS.pop(id(fam), None)
+    return fam
+
+
 # ---------------------------------------------------------------------------
 # generation
 # ---------------------------------------------------------------------------
@@ -104,9 +312,11 @@ def plain(tok, fam):
     return C5.snap(decode(tok, V.build_family(fam)))
 
 
-def bad_for(rng, fam, ty, scalar_only=False, no_iter=False):
+def bad_for(rng, fam, ty, scalar_only=False, no_iter=False, abstract=False):
     """tokens of a value that does not conform to `ty` (and cannot be normalised into it)"""
     cands = []
+    abstract = abstract or is_abstract(ty)
+    ty = cty(ty)
     for t in BAD_POOL:
         if scalar_only and t[0] in "LSD":
             continue
@@ -114,7 +324,7 @@ def bad_for(rng, fam, ty, scalar_only=False, no_iter=False):
             continue
         if t == "T" and ty[0] in ("int", "float", "union", "lit", "list", "set", "dict", "valid"):
             continue
-        if t == "N" and ty[0] in ("list", "set", "dict"):
+        if t == "N" and ty[0] in ("list", "set", "dict") and not abstract:
             continue  # None is normalised into the empty collection
         if t[0] == "D" and "valid" in json.dumps(ty):
             continue  # a dict aimed at a validated type is read as constructor arguments: RuntimeError ("should not be
@@ -127,8 +337,12 @@ def bad_for(rng, fam, ty, scalar_only=False, no_iter=False):
     return rng.choice(cands) if cands else None
 
 
-def bad_collection(rng, fam, ty, where=None):
-    """a pre-built list / set / dict of 1..3 entries with ONE non-conforming element (key / value) at a random position"""
+def bad_collection(rng, fam, ty, where=None, abstract=False):
+    """a pre-built list / set / dict of 1..3 entries with ONE non-conforming element (key / value) at a random position
+    (`abstract`: the annotation is a container class check_type does not look inside -- the value must be an instance
+    of that class, so a real set for set attributes)"""
+    abstract = abstract or is_abstract(ty)
+    ty = cty(ty)
     n = rng.randint(1, 3)
     pos = rng.randrange(n)
     if ty[0] in ("list", "set"):
@@ -136,11 +350,15 @@ def bad_collection(rng, fam, ty, where=None):
         if be is None:
             return "i1"
         xs = []
-        while len(xs) < n - 1:
+        tries = 0
+        while len(xs) < n - 1 and tries < 20:
+            tries += 1
             g = C5.nobool(C5.gen_value(rng, fam, ty[1], 0))
             if g not in xs:
                 xs.append(g)
         xs.insert(min(pos, len(xs)), be)
+        if abstract and ty[0] == "set":
+            return " ".join(["S", str(len(xs))] + xs)
         return " ".join(["L", str(len(xs))] + xs)   # (a list also for set attributes: element order is kept)
     keys = []
     while len(keys) < n:
@@ -181,7 +399,7 @@ def bad_in_union(rng, fam, ty):
 
 
 def coll_attrs(fam, cid):
-    return [ad for ad in V.effective_attrs(fam, cid) if ad["ty"][0] in ("list", "set", "dict")]
+    return [ad for ad in V.effective_attrs(fam, cid) if cty(ad["ty"])[0] in ("list", "set", "dict")]
 
 
 def item_tr(rng, fam, ty):
@@ -195,7 +413,7 @@ def gen_elem_op(rng, fam, cid, state_hint=None):
     if not cands:
         return None
     ad = rng.choice(cands)
-    ty = ad["ty"]
+    ty = cty(ad["ty"])
     a = ad["name"]
     fl = C5.gen_flags(rng)
     item = lambda t: C5.nobool(C5.gen_value(rng, fam, t, 0))  # noqa: E731
@@ -251,16 +469,18 @@ def gen_bad_op(rng, fam, cid):
     if route in ("with", "set", "upd", "UPD") and eff:
         ad = rng.choice(eff)
         ty = ad["ty"]
+        ab = is_abstract(ad.get("aty", ty))
         if ty[0] in ("list", "set"):
             # a collection with one wrong element, or something that is no collection at all
-            v = rng.choice([bad_collection(rng, fam, ty), bad_collection(rng, fam, ty), "i1", "f3"])
+            v = rng.choice([bad_collection(rng, fam, ty, abstract=ab), bad_collection(rng, fam, ty, abstract=ab), "i1", "f3"])
             pos = "element"
         elif ty[0] == "dict":
             bk = bad_for(rng, fam, ty[1], scalar_only=True)
             bv = bad_for(rng, fam, ty[2], scalar_only=True)
             gk = C5.nobool(C5.gen_value(rng, fam, ty[1], 0))
             gv = C5.gen_value(rng, fam, ty[2], 0)
-            v, pos = rng.choice([(bad_collection(rng, fam, ty, "key"), "key"), (bad_collection(rng, fam, ty, "value"), "dictvalue"),
+            v, pos = rng.choice([(bad_collection(rng, fam, ty, "key", abstract=ab), "key"),
+                                 (bad_collection(rng, fam, ty, "value", abstract=ab), "dictvalue"),
                                  ("i1", "value"), ("L 0", "value")])
         elif C5.spec_member(ty) is not None:
             v, pos = bad_for(rng, fam, ty, scalar_only=True), "value"
@@ -285,6 +505,10 @@ def gen_bad_op(rng, fam, cid):
     if route in ("tra", "TRA") and eff:
         ad = rng.choice(eff)
         v = bad_for(rng, fam, ad["ty"], scalar_only=True, no_iter=ad["ty"][0] in ("list", "set", "dict"))
+        if ad["ty"][0] in ("list", "set", "dict") and rng.random() < 0.6:
+            # the transform answers a container of the right class holding ONE wrong item / key / value
+            v = bad_collection(rng, fam, ad["ty"], rng.choice(["key", "value"]), abstract=is_abstract(ad.get("aty", ad["ty"])))
+            v = None if v == "i1" else v
         if v is None:
             return None
         if route == "tra":
@@ -345,12 +569,31 @@ def gen_bad_op(rng, fam, cid):
     return None
 
 
-def gen_case(rng, fam, fname, nops, malformed):
+def good_value(rng, fam, ad):
+    """a conforming value for attribute `ad` that its preparer (if any) leaves conforming"""
+    for _ in range(20):
+        v = C5.gen_value(rng, fam, ad["ty"], 0)
+        if ad.get("prep") is None:
+            return v
+        try:
+            if C5.p_conforms(fam, ad["ty"], C5.snap(V.PREPARERS[ad["prep"]](_Probe(), decode(v)))):
+                return v
+        except Exception:
+            pass
+    return C5.gen_value(rng, fam, ad["ty"], 0)
+
+
+def gen_case(rng, fam0, fname, nops, malformed):
+    fam = view(fam0)          # (generation sees the concrete counterparts of the abstract collection generics)
     cid = rng.choice(C5.top_classes(fam))
     eff = V.effective_attrs(fam, cid)
     init = []
     for ad in rng.sample(eff, rng.randint(0, min(4, len(eff)))):
         init.append([ad["name"], C5.gen_arg(rng, fam, ad, sentinel_p=0.0, bad_p=0.0)])
+    # attributes whose default does not conform must be given explicitly (else the constructor raises, rightly)
+    for a in bad_default_attrs(fam, cid):
+        if all(x[0] != a for x in init) and rng.random() < 0.93:
+            init.append([a, good_value(rng, fam, C5.attr_desc(fam, cid, a))])
     ops = []
     for _ in range(nops):
         r = rng.random()
@@ -362,13 +605,16 @@ def gen_case(rng, fam, fname, nops, malformed):
         if op is None:
             op = C5.gen_op(rng, fam, cid)
         ops.append(op)
-    case = {"family": fam, "fname": fname, "cls": cid, "init": init, "ops": ops, "stream": "malformed" if malformed else "valid"}
+    case = {"family": fam0, "fname": fname, "cls": cid, "init": init, "ops": ops, "stream": "malformed" if malformed else "valid"}
     if malformed and rng.random() < 0.25:
         # a non-conforming constructor keyword
         pl = plain_attrs(fam, cid)
         if pl:
             ad = rng.choice(pl)
             v = bad_for(rng, fam, ad["ty"], scalar_only=True, no_iter=ad["ty"][0] in ("list", "set", "dict"))
+            if ad["ty"][0] in ("list", "set", "dict") and rng.random() < 0.6:
+                v = bad_collection(rng, fam, ad["ty"], rng.choice(["key", "value"]), abstract=is_abstract(ad.get("aty", ad["ty"])))
+                v = None if v == "i1" else v
             if v is not None:
                 case["init"] = [x for x in init if x[0] != ad["name"]] + [[ad["name"], v]]
                 case["init_bad"] = True
@@ -492,13 +738,16 @@ def directed_bad_cases(rng, fam, fname):
     plain subclasses) x every attribute without a preparer x every whole-attribute route: one non-conforming
     value (for collections: a pre-built collection with one wrong element / key / value, or a non-collection)
     """
+    fam0, fam = fam, view(fam)
     for cid in C5.top_classes(fam):
         ops = []
+        base_init = [[a, good_value(rng, fam, C5.attr_desc(fam, cid, a))] for a in bad_default_attrs(fam, cid)]
         for ad in plain_attrs(fam, cid):
             ty = ad["ty"]
+            ab = is_abstract(ad.get("aty", ty))
             for route in WHOLE_ROUTES:
                 if ty[0] in ("list", "set", "dict"):
-                    v = rng.choice([bad_collection(rng, fam, ty, rng.choice(["key", "value"])), "i1"])
+                    v = rng.choice([bad_collection(rng, fam, ty, rng.choice(["key", "value"]), abstract=ab)] * (3 if ab else 1) + ["i1"])
                     if route in ("tra", "TRA") and v == "i1":
                         v = "f3"
                 elif container_member(ty) is not None and rng.random() < 0.7:
@@ -511,8 +760,8 @@ def directed_bad_cases(rng, fam, fname):
                 fl = rng.choice(["-", "i", "a", "ia"])
                 tag = "subclass-" + ("element" if ty[0] in ("list", "set", "dict") else "value")
                 if route == "ctor":
-                    yield {"family": fam, "fname": fname, "cls": cid, "init": [[a, v]], "ops": [], "init_bad": True,
-                           "stream": "directed", "origin": "directed-bad"}
+                    yield {"family": fam0, "fname": fname, "cls": cid, "init": [x for x in base_init if x[0] != a] + [[a, v]],
+                           "ops": [], "init_bad": True, "stream": "directed", "origin": "directed-bad"}
                     continue
                 if route in ("with", "upd"):
                     ops.append({"k": route, "fl": fl, "a": a, "v": v, "kw": [], "bad": tag})
@@ -526,18 +775,66 @@ def directed_bad_cases(rng, fam, fname):
                     ops.append({"k": "TRA", "fl": fl, "f": None, "kt": [[a, "cst " + v]], "bad": tag})
         rng.shuffle(ops)
         for i in range(0, len(ops), 12):
-            yield {"family": fam, "fname": fname, "cls": cid, "init": [], "ops": ops[i:i + 12], "stream": "directed",
+            yield {"family": fam0, "fname": fname, "cls": cid, "init": base_init, "ops": ops[i:i + 12], "stream": "directed",
                    "origin": "directed-bad"}
+
+
+def directed_baddef_cases(rng, fam0, fname):
+    """
+    Defaults that do not conform (declared, default_factory, Attr / dataclasses.field, preparer output, overridden in a
+    plain or spec subclass, one wrong element of a default collection). For every class of the family:
+    (1) the constructor without an explicit value for ONE of them must raise;
+    (2) instances built with explicit conforming values: `del obj.a`, `reset_<a>` (copying, in place) for every such
+        attribute and `reset()` must raise TypeError / ValueError and store nothing -- on the fresh instance, after valid
+        writes, and on second-generation copies.
+    """
+    fam = view(fam0)
+    for cid in C5.top_classes(fam):
+        bad = bad_default_attrs(fam, cid)
+        if not bad:
+            continue
+        good = lambda a: good_value(rng, fam, C5.attr_desc(fam, cid, a))  # noqa: E731
+        for a in bad:
+            yield {"family": fam0, "fname": fname, "cls": cid, "init": [[b, good(b)] for b in bad if b != a], "ops": [],
+                   "init_bad": True, "stream": "directed", "origin": "directed-bad-default"}
+        ops = []
+        for a in bad:
+            for k, fl in (("del", "-"), ("rst", "-"), ("rst", "i"), ("rst", rng.choice(["a", "ia"]))):
+                op = {"k": k, "a": a, "bad": "default"}
+                if k == "rst":
+                    op["fl"] = fl
+                ops.append(op)
+        for fl in ("-", "i", "a"):
+            ops.append({"k": "RST", "fl": fl, "bad": "default"})
+        rng.shuffle(ops)
+        eff = [ad for ad in V.effective_attrs(fam, cid) if ad["ty"][0] != "spec"]
+        out = []
+        for op in ops:
+            out.append(op)
+            if rng.random() < 0.5:      # valid writes in between (half of them adopted: second-generation receivers)
+                ad = rng.choice(eff)
+                v = good_value(rng, fam, ad)
+                out.append(rng.choice([
+                    {"k": "with", "fl": rng.choice(["a", "i", "ia"]), "a": ad["name"], "v": v, "kw": []},
+                    {"k": "set", "a": ad["name"], "v": v},
+                    {"k": "UPD", "fl": rng.choice(["a", "i"]), "v": "M", "kw": [[ad["name"], v]]}]))
+        for i in range(0, len(out), 14):
+            yield {"family": fam0, "fname": fname, "cls": cid, "init": [[b, good(b)] for b in bad], "ops": out[i:i + 14],
+                   "stream": "directed", "origin": "directed-bad-default"}
 
 
 def gen_cases(tier, rng):
     nfam = {"quick": 4, "thorough": 30, "search": 10}[tier]
-    fams = [("elem", FAMILY_ELEM), ("main", C5.FAMILY_MAIN), ("prep", C5.FAMILY_PREP), ("falsy", C5.FAMILY_FALSY)] + [
-        (f"rnd{i}", C5.random_family(rng)) for i in range(nfam)]
+    hand = [("elem", FAMILY_ELEM), ("main", C5.FAMILY_MAIN), ("prep", C5.FAMILY_PREP), ("falsy", C5.FAMILY_FALSY),
+            ("abs", FAMILY_ABS), ("desc", FAMILY_DESC), ("baddef", FAMILY_BADDEF)]
+    fams = hand + [(f"rnd{i}", random_family3(rng) if i % 2 == 0 else C5.random_family(rng)) for i in range(nfam)]
+    nh = len(hand)
     if tier != "search":
         yield from valid_order_cases(rng)
-        for fname, fam in fams[:4] + (fams[4:6] if tier == "quick" else fams[4:]):
+        for fname, fam in fams[:nh] + (fams[nh:nh + 2] if tier == "quick" else fams[nh:]):
             yield from directed_bad_cases(rng, fam, fname)
+        for fname, fam in fams:
+            yield from directed_baddef_cases(rng, fam, fname)
     if tier == "search":
         while True:
             fname, fam = rng.choice(fams)
@@ -545,7 +842,7 @@ def gen_cases(tier, rng):
         return
     n = 1000 if tier == "quick" else 20000
     for i in range(n):
-        fname, fam = fams[i % len(fams)] if rng.random() < 0.6 else fams[0]
+        fname, fam = fams[i % len(fams)] if rng.random() < 0.6 else rng.choice([fams[0], fams[0], fams[4], fams[5], fams[6]])
         yield gen_case(rng, fam, fname, rng.randint(4, 14), malformed=(i % 2 == 1))
 
 
@@ -655,10 +952,13 @@ def ref_conforms(value, ann):
         return any(ref_conforms(value, a) for a in args)
     if origin is typing.Literal:
         return any(type(value) in (bool, int, float, str, type(None)) and value == a for a in args)
-    if origin in (list, set, frozenset):
+    if origin in (list, set, frozenset, collections.abc.MutableSequence, collections.abc.MutableSet,
+                  collections.abc.Sequence, collections.abc.Set):
+        if isinstance(value, (str, bytes)):
+            return False
         return isinstance(value, origin) and all(ref_conforms(x, args[0]) for x in value) if args else isinstance(value, origin)
-    if origin is dict:
-        if not isinstance(value, dict):
+    if origin in (dict, collections.abc.MutableMapping, collections.abc.Mapping):
+        if not isinstance(value, origin):
             return False
         return all(ref_conforms(k, args[0]) and ref_conforms(x, args[1]) for k, x in value.items()) if args else True
     if origin is tuple:
@@ -765,7 +1065,7 @@ def oracle(case):
             viol.append(f"constructor with a non-conforming keyword raised {V.err_name(e)}")
         return viol
     if case.get("init_bad"):
-        viol.append(f"constructor accepted a non-conforming keyword: {C5.kw_tokens(case['init'])} -> {show(recv)}")
+        viol.append(f"constructor accepted a non-conforming keyword / default: {C5.kw_tokens(case['init'])} -> {show(recv)}")
     live.append(recv)
     for obj, a, x in ill_typed(fam, classes, live):
         viol.append(f"after construction: C{type(obj).__verif_id__}.a{a} holds {show(x)}")
@@ -818,7 +1118,7 @@ def nontrivial(case, real):
 
 
 def tags(case, real):
-    t = [f"stream:{case.get('stream')}", f"family:{case['fname'][:3]}", f"class:C{case['cls']}" if case["fname"] in ("elem", "falsy") else "class:*"]
+    t = [f"stream:{case.get('stream')}", f"family:{case['fname'][:3]}", f"class:C{case['cls']}" if case["fname"] in ("elem", "falsy", "abs", "desc", "baddef") else "class:*"]
     base = 1 + len(case["family"]["classes"])
     t.append("ctor:" + real[base].split(" ")[0] + (":bad-keyword" if case.get("init_bad") else ""))
     if real[base].startswith("err"):
@@ -922,7 +1222,7 @@ def keyed_state(host):
 WRONG_ITEMS = [5, None, (1, 2), 2.5, ["a"], True]
 
 
-def extra(tier, rng):
+def extra_keyed(tier, rng):
     K = keyed_classes()
     It, KL, KS = K["It"], K["KeyedList"], K["KeyedSet"]
     viol = []
@@ -1015,8 +1315,409 @@ def extra(tier, rng):
             "info": {"keyed_container_routes": evals, "keyed_histogram": dict(sorted(hist.items()))}}
 
 
+# ---------------------------------------------------------------------------
+# more container classes `check_type` does not look inside (outside the line protocol): KeyedSet / KeyedList of scalars
+# and of UNKEYED spec instances (no key type to cast from), other MutableMapping classes
+# ---------------------------------------------------------------------------
+
+_OPAQUE = {}
+
+
+def opaque_classes():
+    if _OPAQUE.get("mod") is V.S("mod"):
+        return _OPAQUE
+    import collections
+    from typing import MutableMapping
+
+    from spec_classes import spec_class
+    from spec_classes.types import KeyedList, KeyedSet
+
+    @spec_class(bootstrap=True)
+    class Pl:
+        v: int = 0
+
+    @spec_class(bootstrap=True)
+    class Reg:
+        tags: KeyedSet[str, str]
+        ports: KeyedList[int, int]
+        pls: KeyedList[Pl, int]
+        wts: MutableMapping[str, int]
+        n: int = 0
+
+    class RegP(Reg):
+        n = 2
+
+    @spec_class(bootstrap=True)
+    class RegS(Reg):
+        m: int = 1
+
+    _OPAQUE.clear()
+    _OPAQUE.update(mod=V.S("mod"), Pl=Pl, Reg=Reg, RegP=RegP, RegS=RegS, KeyedList=KeyedList, KeyedSet=KeyedSet,
+                   OrderedDict=collections.OrderedDict, MutableMapping=MutableMapping)
+    return _OPAQUE
+
+
+def _plkey(x):
+    return x.v if hasattr(x, "__spec_class__") else repr(x)
+
+
+def reg_ok(O, reg):
+    out = []
+    d = reg.__dict__
+    if "tags" in d and not (isinstance(d["tags"], O["KeyedSet"]) and all(type(t) is str for t in d["tags"])):
+        out.append(f"tags holds {list(d['tags'])!r}")
+    if "ports" in d and not (isinstance(d["ports"], O["KeyedList"]) and all(isinstance(t, int) for t in d["ports"])):
+        out.append(f"ports holds {list(d['ports'])!r}")
+    if "pls" in d and not (isinstance(d["pls"], O["KeyedList"]) and all(
+            isinstance(t, O["Pl"]) and isinstance(t.__dict__.get("v", 0), int) for t in d["pls"])):
+        out.append(f"pls holds {list(d['pls'])!r}")
+    if "wts" in d and not (isinstance(d["wts"], collections.abc.MutableMapping) and all(
+            type(k) is str and isinstance(x, int) for k, x in d["wts"].items())):
+        out.append(f"wts holds {dict(d['wts'])!r}")
+    for name in ("n", "m"):
+        if not isinstance(d.get(name, 0), int):
+            out.append(f"{name} holds {d[name]!r}")
+    return out
+
+
+def reg_state(reg):
+    d = reg.__dict__
+
+    def one(name):
+        if name not in d:
+            return "M"
+        v = d[name]
+        xs = [repr(_plkey(i)) if hasattr(i, "__spec_class__") else repr(i) for i in (v.items() if name == "wts" else v)]
+        return type(v).__name__ + "[" + ",".join(sorted(xs) if name in ("tags",) else xs) + "]"
+
+    return "|".join(one(n) for n in ("tags", "ports", "pls", "wts")) + f"|{d.get('n')}"
+
+
+ROUTES7 = ["ctor", "set", "with", "transform", "update_attr", "update", "transform_top"]
+
+
+def call_route(rng, cls, host, attr, value, route):
+    """send `value` to `attr` through one whole-attribute route; returns the object that now should hold it"""
+    inplace = rng.random() < 0.5
+    if route == "ctor":
+        return cls(**{attr: value})
+    if route == "set":
+        setattr(host, attr, value)
+        return host
+    if route == "with":
+        return getattr(host, f"with_{attr}")(value, _inplace=inplace)
+    if route == "transform":
+        return getattr(host, f"transform_{attr}")(lambda old: value, _inplace=inplace)
+    if route == "update_attr":
+        return getattr(host, f"update_{attr}")(value, _inplace=inplace)
+    if route == "update":
+        return host.update(**{attr: value}, _inplace=inplace)
+    return host.transform(**{attr: (lambda old: value)}, _inplace=inplace)
+
+
+def extra_opaque(tier, rng):
+    O = opaque_classes()
+    Pl, KL, KS, OD = O["Pl"], O["KeyedList"], O["KeyedSet"], O["OrderedDict"]
+    viol, evals, nontriv, hist = [], 0, set(), {}
+    good_items = {"tags": ["a", "b", "c", ""], "ports": [80, 443, 0, 22], "pls": None, "wts": None}
+    wrong_items = {"tags": [5, None, 2.5, (1, 2)], "ports": ["http", None, 2.5, (1,)], "pls": [5, None, "x", 2.5]}
+    reps = 1 if tier == "quick" else 8
+    for _ in range(reps):
+        for cls_name in ("Reg", "RegP", "RegS"):
+            cls = O[cls_name]
+            for attr in ("tags", "ports", "pls", "wts"):
+                for kind in ("prebuilt", "plain"):
+                    if attr == "pls" and kind == "plain":
+                        continue    # (rebuilding needs a key function: unkeyed items cannot be re-keyed by the library)
+                    for content in ("good", "wrong"):
+                        for route in ROUTES7:
+                            n = rng.randint(1, 3)
+                            pos = rng.randrange(n)
+                            wrong = None
+                            if attr == "wts":
+                                keys = rng.sample(["a", "b", "c", ""], n)
+                                d = {k: i for i, k in enumerate(keys)}
+                                if content == "wrong":
+                                    if rng.random() < 0.5:
+                                        wrong = ("key", rng.choice([5, None, 2.5]))
+                                        d = {(wrong[1] if i == pos else k): x for i, (k, x) in enumerate(d.items())}
+                                    else:
+                                        wrong = ("value", rng.choice(["x", None, 2.5]))
+                                        d[keys[pos]] = wrong[1]
+                                value = OD(d) if kind == "prebuilt" else d
+                                want = list(d.items())
+                            else:
+                                items = ([Pl(v=i) for i in rng.sample(range(6), n)] if attr == "pls"
+                                         else rng.sample(good_items[attr], n))
+                                if content == "wrong":
+                                    wrong = rng.choice(wrong_items[attr])
+                                    items[pos] = wrong
+                                try:
+                                    if kind == "prebuilt":
+                                        value = (KS if attr == "tags" else KL)(items, key=_plkey if attr == "pls" else None)
+                                    else:
+                                        value = set(items) if attr == "tags" else list(items)
+                                except Exception:
+                                    continue
+                                want = items
+                            host = None
+                            if route != "ctor":
+                                host = cls(tags=KS(["z"]), ports=KL([1]), pls=KL([Pl(v=9)], key=_plkey), wts={"z": 0})
+                            pre = reg_state(host) if host is not None else None
+                            desc = f"{cls_name}.{attr} via {route}: {kind} container, {content} content {want!r}"
+                            err = res = None
+                            try:
+                                res = call_route(rng, cls, host, attr, value, route)
+                            except Exception as e:
+                                err = V.err_name(e)
+                            evals += 1
+                            hk = f"opaque:{attr}:{route}:{content}:{err or 'ok'}"
+                            hist[hk] = hist.get(hk, 0) + 1
+                            nontriv.add((cls_name, attr, kind, content, route, n, pos, repr(wrong)))
+                            v = []
+                            if content == "wrong":
+                                if err is None:
+                                    v.append(f"{desc}: accepted; result {reg_state(res)}")
+                                elif err not in ("TypeError", "ValueError"):
+                                    v.append(f"{desc}: raised {err}, not TypeError/ValueError")
+                                if err is not None and host is not None and reg_state(host) != pre:
+                                    v.append(f"{desc}: raised {err} but the receiver changed to {reg_state(host)}")
+                            elif err is not None:
+                                v.append(f"{desc}: raised {err}")
+                            else:
+                                got = res.__dict__[attr]
+                                got = list(got.items()) if attr == "wts" else list(got)
+                                same = (sorted(map(repr, got)) == sorted(map(repr, want))) if attr in ("tags", "wts") else (
+                                    [_plkey(x) for x in got] == [_plkey(x) for x in want])
+                                if not same:
+                                    v.append(f"{desc}: stored {got!r}")
+                            for o in [x for x in (host, res) if x is not None and hasattr(x, "__spec_class__")]:
+                                for c in reg_ok(O, o):
+                                    v.append(f"{desc}: afterwards {c}")
+                            if v:
+                                viol.append({"case": {"opaque": desc}, "violation": v})
+    return {"evaluations": evals, "nontrivial": sorted(nontriv, key=repr), "violations": viol[:20],
+            "info": {"opaque_container_routes": evals, "opaque_histogram": dict(sorted(hist.items()))}}
+
+
+# ---------------------------------------------------------------------------
+# managed attributes masked by other descriptor kinds (outside the line protocol): cached spec_property, Alias (local
+# override and passthrough), DeprecatedAlias, plain `property` with a setter -- values assigned to them ("overrides")
+# must conform like those of any other attribute; and `invalidated_by` dependants whose default does not conform
+# ---------------------------------------------------------------------------
+
+_DESC = {}
+
+
+def desc_classes():
+    if _DESC.get("mod") is V.S("mod"):
+        return _DESC
+    from typing import List, Optional
+
+    from typing_extensions import Literal
+
+    from spec_classes import Alias, Attr, DeprecatedAlias, spec_class, spec_property
+
+    @spec_class(bootstrap=True)
+    class In:
+        x: int = 0
+
+    @spec_class(bootstrap=True)
+    class Srv:
+        host: str = "h"
+        port: int = 8000
+        workers: int
+        mode: Literal["dev", "prod"]
+        label: Optional[str] = Alias("host")
+        alt: int = Alias("port", passthrough=True)
+        old: int = DeprecatedAlias("port")
+        lim: int
+        hosts: List[str]
+        inner: In
+
+        @spec_property
+        def workers(self):
+            return 4 if self.port == 80 else 1
+
+        @spec_property(cache=True)
+        def mode(self):
+            return "prod" if self.port == 80 else "dev"
+
+        @spec_property(cache=True)
+        def hosts(self):
+            return ["a"]
+
+        @spec_property
+        def inner(self):
+            return In()
+
+        @property
+        def lim(self):
+            return self.__dict__.get("_lim", 3)
+
+        @lim.setter
+        def lim(self, v):
+            self.__dict__["_lim"] = v
+
+    class SrvP(Srv):
+        port = 1
+
+    @spec_class(bootstrap=True)
+    class SrvS(Srv):
+        more: int = 0
+
+    @spec_class(bootstrap=True)
+    class Inv:
+        src: int = 0
+        dep: int = Attr(default=None, invalidated_by=["src"])                          # does not conform
+        depf: List[str] = Attr(default_factory=lambda: ["a", 0], invalidated_by=["src"])   # one wrong element
+        fine: int = Attr(default=5, invalidated_by=["src"])
+
+    _DESC.clear()
+    _DESC.update(mod=V.S("mod"), In=In, Srv=Srv, SrvP=SrvP, SrvS=SrvS, Inv=Inv)
+    return _DESC
+
+
+def srv_ok(D, obj):
+    preds = {
+        "host": lambda v: isinstance(v, str), "port": lambda v: isinstance(v, int),
+        "workers": lambda v: isinstance(v, int), "mode": lambda v: type(v) is str and v in ("dev", "prod"),
+        "label": lambda v: v is None or isinstance(v, str), "alt": lambda v: isinstance(v, int),
+        "old": lambda v: isinstance(v, int), "lim": lambda v: isinstance(v, int),
+        "hosts": lambda v: isinstance(v, list) and all(isinstance(x, str) for x in v),
+        "inner": lambda v: isinstance(v, D["In"]) and isinstance(v.__dict__.get("x", 0), int),
+        "more": lambda v: isinstance(v, int),
+    }
+    out = []
+    for attr in type(obj).__spec_class__.attrs:
+        try:
+            value = getattr(obj, attr)
+        except AttributeError:
+            continue
+        except Exception as e:          # a getter whose result is rejected: nothing is held
+            out.append(f"reading {attr} raised {type(e).__name__}")
+            continue
+        if attr in preds and not preds[attr](value):
+            out.append(f"{type(obj).__name__}.{attr} == {value!r}")
+    return out
+
+
+def srv_state(obj):
+    return repr(sorted((k, repr(v)) for k, v in obj.__dict__.items()))
+
+
+def extra_desc(tier, rng):
+    import warnings
+
+    D = desc_classes()
+    In = D["In"]
+    good = {"workers": [8, 0], "mode": ["prod", "dev"], "label": [None, "", "lbl"], "alt": [1, 0], "old": [2], "lim": [0, 7],
+            "hosts": [[], ["b", "c"]], "inner": [lambda: In(x=3), lambda: {"x": 4}]}
+    wrong = {"workers": ["many", None, 2.5], "mode": ["staging", 5, None, ""], "label": [42, 2.5, ["a"]], "alt": ["x", None],
+             "old": ["x", None], "lim": ["x", None, 2.5], "hosts": [[1], ["a", 5], 5], "inner": [5, "x", lambda: {"x": "bad"}]}
+    viol, evals, nontriv, hist = [], 0, set(), {}
+    reps = 1 if tier == "quick" else 6
+    with warnings.catch_warnings():
+        warnings.simplefilter("ignore")
+        for _ in range(reps):
+            for cls_name in ("Srv", "SrvP", "SrvS"):
+                cls = D[cls_name]
+                for attr in good:
+                    for content in ("good", "wrong"):
+                        for route in ROUTES7:
+                            for warm in (False, True):
+                                pool = good[attr] if content == "good" else wrong[attr]
+                                value = rng.choice(pool)
+                                value = value() if callable(value) else value
+                                host = cls() if route != "ctor" else None
+                                if host is not None and warm:
+                                    # derived values already read (caches filled), an earlier valid override in place
+                                    srv_ok(D, host)
+                                    g = rng.choice(good[attr])
+                                    setattr(host, attr, g() if callable(g) else g)
+                                pre = srv_state(host) if host is not None else None
+                                desc = f"{cls_name}.{attr} via {route}{' (warm)' if warm else ''}: {content} value {value!r}"
+                                err = res = None
+                                try:
+                                    res = call_route(rng, cls, host, attr, value, route)
+                                except Exception as e:
+                                    err = V.err_name(e)
+                                evals += 1
+                                hk = f"desc:{attr}:{route}:{content}:{err or 'ok'}"
+                                hist[hk] = hist.get(hk, 0) + 1
+                                nontriv.add((cls_name, attr, content, route, warm, repr(value)))
+                                v = []
+                                if content == "wrong":
+                                    if err is None:
+                                        v.append(f"{desc}: accepted")
+                                    elif err not in ("TypeError", "ValueError"):
+                                        v.append(f"{desc}: raised {err}, not TypeError/ValueError")
+                                    if host is not None and warm and srv_state(host) != pre:
+                                        # (not warm: reading a cached property on the way fills its cache, legitimately)
+                                        v.append(f"{desc}: raised {err} but the receiver changed")
+                                elif err is not None:
+                                    v.append(f"{desc}: raised {err}")
+                                else:
+                                    got = getattr(res, attr)
+                                    exp = value
+                                    if attr == "inner":
+                                        got, exp = got.x, (value["x"] if isinstance(value, dict) else value.x)
+                                    if got != exp:
+                                        v.append(f"{desc}: reads back {got!r}")
+                                for o in [x for x in (host, res) if x is not None and hasattr(x, "__spec_class__")]:
+                                    for c in srv_ok(D, o):
+                                        v.append(f"{desc}: afterwards {c}")
+                                if v:
+                                    viol.append({"case": {"descriptor": desc}, "violation": v})
+            # dependants with non-conforming defaults: writing the source must not establish them
+            Inv = D["Inv"]
+            for route in ROUTES7[1:] + ["reset_src", "del_src"]:
+                for inplace_hint in (0, 1):
+                    host = Inv(dep=1, depf=["x"], fine=9)
+                    desc = f"Inv.src via {route}: dependants dep / depf have non-conforming defaults"
+                    err = res = None
+                    try:
+                        if route == "reset_src":
+                            res = host.reset_src(_inplace=bool(inplace_hint))
+                        elif route == "del_src":
+                            del host.src
+                            res = host
+                        else:
+                            res = call_route(rng, Inv, host, "src", rng.choice([3, 0]), route)
+                    except Exception as e:
+                        err = V.err_name(e)
+                    evals += 1
+                    hk = f"inv-bad-default:{route}:{err or 'ok'}"
+                    hist[hk] = hist.get(hk, 0) + 1
+                    nontriv.add(("Inv", route, inplace_hint))
+                    v = []
+                    if err is not None and err not in ("TypeError", "ValueError"):
+                        v.append(f"{desc}: raised {err}")
+                    for o in [x for x in (host, res) if x is not None]:
+                        dd = o.__dict__
+                        if "dep" in dd and not isinstance(dd["dep"], int):
+                            v.append(f"{desc}: afterwards dep holds {dd['dep']!r}")
+                        if "depf" in dd and not (isinstance(dd["depf"], list) and all(isinstance(x, str) for x in dd["depf"])):
+                            v.append(f"{desc}: afterwards depf holds {dd['depf']!r}")
+                    if v:
+                        viol.append({"case": {"descriptor": desc}, "violation": v})
+    return {"evaluations": evals, "nontrivial": sorted(nontriv, key=repr), "violations": viol[:20],
+            "info": {"descriptor_routes": evals, "descriptor_histogram": dict(sorted(hist.items()))}}
+
+
+def extra(tier, rng):
+    out = {"evaluations": 0, "nontrivial": [], "violations": [], "info": {}}
+    for part in (extra_keyed, extra_opaque, extra_desc):
+        r = part(tier, rng)
+        out["evaluations"] += r["evaluations"]
+        out["nontrivial"] += r["nontrivial"]
+        out["violations"] += r["violations"]
+        out["info"].update(r["info"])
+    return out
+
+
 MANIFEST_ENTRY = {
-    "level_text": "Lean 4 proof that in the Impl model of every mutation route of the spec-class API (generated constructor incl. keyword and dict-to-spec casting, obj.a = v, del, with_/update_/transform_/reset_<attr> with values, keywords and transforms, update/transform/reset, with_/update_/transform_/without_<item> on list / dict / set attributes by index / key / value, preparers and item preparers returning arbitrary values) the invariant WellTyped (every managed attribute that is set conforms to its annotation: element, key and value types, Union/Optional alternatives, Literal choices, nested spec classes, recursively through nested instances) is preserved by every step, for any class table, any pure callbacks, any fuel (wellTyped_step), hence holds in every reachable state of every history (wellTyped_reachable), and that a call whose pipeline ends in a non-conforming value, element or key raises TypeError / ValueError and leaves the receiver as it was (bad_value_rejected &c.). The model is tied to /repo on every run: valid and malformed call streams (one non-conforming value aimed at each position of each route) run on the real classes and on the model; outcome class, returned state, receiver state and the invariant (Lean `wt` vs an independent typing-based reference checker over every live instance) are compared after every call.",
+    "level_text": "Lean 4 proof that in the Impl model of every mutation route of the spec-class API (generated constructor incl. keyword and dict-to-spec casting, obj.a = v, del, with_/update_/transform_/reset_<attr> with values, keywords and transforms, update/transform/reset, with_/update_/transform_/without_<item> on list / dict / set attributes by index / key / value, preparers and item preparers returning arbitrary values) the invariant WellTyped (every managed attribute that is set conforms to its annotation: element, key and value types -- also for container classes check_type does not look inside (MutableSequence/MutableSet/MutableMapping[...]), where only the per-item pass of prepare() guards the items (items_checked_by_prepare) --, Union/Optional alternatives, Literal choices, nested spec classes, recursively through nested instances) is preserved by every step, for any class table (incl. attributes without a default of their own that are backed by a property, and defaults that do not conform), any pure callbacks, any fuel (wellTyped_step), hence holds in every reachable state of every history (wellTyped_reachable), and that a call whose pipeline ends in a non-conforming value, element or key raises TypeError / ValueError and leaves the receiver as it was (bad_value_rejected &c.), as do del / reset_<a> / reset() when the class default does not conform (bad_default_rejected, reset_error_stores_nothing). The model is tied to /repo on every run: valid and malformed call streams (one non-conforming value aimed at each position of each route) run on the real classes and on the model; outcome class, returned state, receiver state and the invariant (Lean `wt` vs an independent typing-based reference checker over every live instance) are compared after every call.",
     "level_note": "Trusted: Lean kernel; axioms propext/Classical.choice/Quot.sound only; the hand-written value-level model (shared with C05), the class-family builder, the correspondence harness. Instances supplied by the caller or by callbacks are assumed well typed (they can only be created through the API). KeyedList/KeyedSet, tuple generics and validated types are covered by C13/C14/C15, not here.",
     "technique": "Lean 4 inductive-invariant proof over all routes and histories of a hand-written model; differential correspondence against the real API; typing-based reference checker as independent oracle",
 }
